@@ -202,6 +202,20 @@ theorem addAll_ok {conf : List Blk} : ∀ (bs : List Blk) (m m' : Mgr), MgrOK co
       obtain ⟨h3, h4⟩ := addAll_ok bs m1 m' h1 (fun x hx => hh x (by simp [hx])) h
       exact ⟨h3, by rw [h4, h2]; simp⟩
 
+theorem addAll_pooled : ∀ (bs : List Blk) (m m' : Mgr), addAll m bs = some m' → m'.pooled = m.pooled ++ bs
+  | [], m, m', h => by simp [addAll] at h; subst h; simp
+  | b :: bs, m, m', h => by
+    unfold addAll at h
+    cases ha : m.add b with
+    | none => simp [ha] at h
+    | some m1 =>
+      simp only [ha] at h
+      have h1 := addAll_pooled bs m1 m' h
+      unfold Mgr.add at ha
+      split at ha
+      · cases ha; rw [h1]; simp
+      · cases ha
+
 theorem uncommittedOf_heights (view : List Blk) (lo : Nat) (hlo : lo ≠ 0) : ∀ (n : Nat) (unc : List Blk),
     uncommittedOf view lo n = some unc → HeightsOK unc ∧ ∀ b ∈ unc, b ∈ view
   | 0, unc, h => by simp [uncommittedOf] at h; subst h; exact ⟨fun _ hb => by simp at hb, fun _ hb => by simp at hb⟩
@@ -373,10 +387,11 @@ theorem rollbackTo_reaches {conf : List Blk} : ∀ (fuel : Nat) (m : Mgr) (j : N
 def Inv (s : PState) : Prop :=
   Linked zeroId s.confirmed ∧ HeightsOK s.confirmed ∧ ∀ m, s.mgr = some m → MgrOK s.confirmed m
 
-/-- what the callers guarantee about an operation: blocks have height ≥ 1 (verifier), a momentum extends the
-    account chain by blocks that link to it (chain insert) -/
+/-- what the callers guarantee about an operation: blocks have height ≥ 1 (verifier) and a block added on its own is
+    not a ContractSend (`Supervisor.ApplyBlock` refuses them; they only travel as descendants of a contract receive); a
+    momentum extends the account chain by blocks that link to it (chain insert) -/
 def OpOK (s : PState) : Op → Prop
-  | .add b _ => b.height ≠ 0
+  | .add b _ => b.height ≠ 0 ∧ isContractSend b.btype = false
   | .insert nb => Linked (lastId s.confirmed) nb ∧ HeightsOK nb
   | .delete _ => True
 
@@ -432,15 +447,14 @@ theorem addBlock_inv {s : PState} (h : Inv s) (b : Blk) (f : Bool) (hb : b.heigh
                 · exact inv_set_mgr h hr.1
 
 theorem insertMomentum_inv {s : PState} (h : Inv s) (nb : List Blk) (hl : Linked (lastId s.confirmed) nb)
-    (hh : HeightsOK nb) : Inv (insertMomentum s nb false).1 := by
+    (hh : HeightsOK nb) : Inv (insertMomentum s nb).1 := by
   have hc : Linked zeroId (s.confirmed ++ nb) := (linked_append nb s.confirmed zeroId).mpr ⟨h.1, hl⟩
   have hhc : HeightsOK (s.confirmed ++ nb) := heightsOK_append.mpr ⟨h.2.1, hh⟩
   unfold insertMomentum
   simp only
   split
   · exact ⟨hc, hhc, fun m hm => by simp at hm⟩
-  · simp only [Bool.false_eq_true, if_false]
-    split
+  · split
     · exact ⟨hc, hhc, fun m hm => by simp at hm⟩
     · exact ⟨hc, hhc, fun m hm => by simp at hm⟩
     · rename_i unc _ hu
@@ -448,8 +462,10 @@ theorem insertMomentum_inv {s : PState} (h : Inv s) (nb : List Blk) (hl : Linked
       · exact ⟨hc, hhc, fun m hm => by simp at hm⟩
       · rename_i m ha
         have hunc := (uncommittedOf_heights _ _ (by omega) _ _ hu).1
+        have hf : HeightsOK (unc.filter (fun b => !isContractSend b.btype)) :=
+          fun b hb => hunc b (List.mem_filter.mp hb).1
         have hok : MgrOK (s.confirmed ++ nb) ⟨s.confirmed ++ nb, []⟩ := ⟨rfl, trivial, fun _ hb => by simp at hb⟩
-        have := (addAll_ok unc _ m hok hunc ha).1
+        have := (addAll_ok _ _ m hok hf ha).1
         exact ⟨hc, hhc, fun m' hm' => by simp at hm'; subst hm'; exact this⟩
 
 theorem deleteMomentum_inv {s : PState} (h : Inv s) (k : Nat) : Inv (deleteMomentum s k) :=
@@ -460,8 +476,79 @@ theorem reachable_inv {c0 : List Blk} {s : PState} (hr : Reachable c0 s) : Inv s
   | init h1 h2 => exact ⟨h1, h2, fun m hm => by simp at hm⟩
   | step op _ hop ih =>
     cases op with
-    | add b f => exact addBlock_inv ih b f hop
+    | add b f => exact addBlock_inv ih b f hop.1
     | insert nb => exact insertMomentum_inv ih nb hop.1 hop.2
     | delete k => exact deleteMomentum_inv ih k
+
+/-! #### no ContractSend is pooled on its own -/
+
+def NoCS (xs : List Blk) : Prop := ∀ b ∈ xs, isContractSend b.btype = false
+
+theorem rollbackTo_subset (prev : Id) : ∀ (fuel : Nat) (m : Mgr), ∀ x ∈ (rollbackTo prev fuel m).1.pooled, x ∈ m.pooled
+  | 0, m, x, hx => by simpa [rollbackTo] using hx
+  | fuel + 1, m, x, hx => by
+    unfold rollbackTo at hx
+    by_cases hf : m.frontierId = prev
+    · simpa [hf] using hx
+    · simp only [hf, if_false] at hx
+      cases hp : m.pop with
+      | none => simpa [hp] using hx
+      | some m' =>
+        simp only [hp] at hx
+        have h1 := rollbackTo_subset prev fuel m' x hx
+        unfold Mgr.pop at hp
+        split at hp
+        · cases hp
+        · cases hp; exact List.dropLast_subset _ h1
+
+theorem add_pooled {m m' : Mgr} {b : Blk} (h : m.add b = some m') : m'.pooled = m.pooled ++ [b] := by
+  unfold Mgr.add at h
+  split at h
+  · cases h; rfl
+  · cases h
+
+theorem addBlock_pooled_subset (s : PState) (b : Blk) (f : Bool) :
+    ∀ x ∈ (addBlock s b f).1.manager.pooled, x ∈ s.manager.pooled ∨ x = b := by
+  intro x
+  unfold addBlock
+  simp only
+  have hs1 : ({ s with mgr := some s.manager } : PState).manager = s.manager := rfl
+  have hroll := rollbackTo_subset b.prev (s.manager.pooled.length + 1) s.manager
+  generalize rollbackTo b.prev (s.manager.pooled.length + 1) s.manager = r at hroll
+  obtain ⟨m', reached⟩ := r
+  simp only at hroll
+  repeat' split
+  all_goals (intro hx; simp only [PState.manager, Option.getD_some] at hx)
+  all_goals first
+    | (left; exact hx)
+    | (rename_i ha; rw [add_pooled ha] at hx
+       rcases List.mem_append.mp hx with h | h
+       · first | (left; exact h) | (left; exact hroll x h)
+       · right; simpa using h)
+    | (left; exact hroll x hx)
+
+theorem reachable_nocs {c0 : List Blk} {s : PState} (hr : Reachable c0 s) : NoCS s.manager.pooled := by
+  induction hr with
+  | init _ _ => intro b hb; simp [PState.manager] at hb
+  | step op _ hop ih =>
+    cases op with
+    | add b f =>
+      intro x hx
+      rcases addBlock_pooled_subset _ b f x hx with h | h
+      · exact ih x h
+      · rw [h]; exact hop.2
+    | insert nb =>
+      intro x hx
+      simp only [step, insertMomentum] at hx
+      repeat' split at hx
+      all_goals (simp only [PState.manager, Option.getD_some, Option.getD_none] at hx)
+      all_goals first
+        | (simp at hx; done)
+        | (rename_i ha
+           have := addAll_pooled _ _ _ ha
+           rw [this] at hx
+           simp only [List.nil_append, List.mem_filter] at hx
+           simpa using hx.2)
+    | delete k => intro x hx; simp [step, deleteMomentum, PState.manager] at hx
 
 end ZV.Pool
